@@ -22,7 +22,7 @@ def reset_stage_for_retry(stage: StageExecution) -> None:
     # Re-arm join/split tracking: a fired discriminator or N-of-M join would
     # otherwise never become READY again inside a jump_to retry loop, and a
     # split's recorded branch activations belong to the previous iteration.
-    for key in ("_join_fired", "_completed_branches", "_activated_branches", "_planned"):
+    for key in ("_join_fired", "_completed_branches", "_activated_branches", "_planned", "_skipped_branches"):
         stage.context.pop(key, None)
     # A REDIRECT completion still in flight for the previous iteration is stale
     # from here on (see CompleteTaskHandler).
